@@ -187,8 +187,8 @@ def _roots_wrapper(p):
     perm = _ENV['perm']
     if perm is not None and len(perm) == len(r):
         base = _ENV['cache']
-        if base is None or len(base) != len(r):
-            base = r
+        if base is None or len(base) != len(r) or _ENV.get('actual'):
+            base = r        # what numpy returns for the coefficients AS PASSED (dtype / container matter)
         return base[list(perm)]
     return r
 
@@ -217,9 +217,33 @@ def multisets(maxdeg):
     return out
 
 
+COEFF_FORMS = ['real_ndarray', 'complex_dtype_ndarray', 'list_of_python_floats', 'list_of_python_complex', 'poly1d', 'tuple']
+
+
+def coeff_form(c, form):
+    """the same real polynomial handed over as the container / dtype a caller may have at hand"""
+    if form == 'real_ndarray':
+        return np.array(c, dtype=float)
+    if form == 'complex_dtype_ndarray':
+        return np.array(c, dtype=complex)
+    if form == 'list_of_python_floats':
+        return [float(x) for x in c]
+    if form == 'list_of_python_complex':
+        return [complex(float(x), 0.0) for x in c]
+    if form == 'poly1d':
+        return np.poly1d(np.array(c, dtype=float))
+    return tuple(float(x) for x in c)
+
+
 def check_roots(S, B, roots, perm, acc, case):
     """one polynomial, one environment answer (permutation)"""
     coeffs = np.real(np.poly(roots))
+    form = COEFF_FORMS[sum(perm) % len(COEFF_FORMS)] if len(perm) else 'real_ndarray'
+    if perm == tuple(range(len(perm))):
+        form = COEFF_FORMS[(len(S) + 3 * len(B) + len(roots)) % len(COEFF_FORMS)]
+    coeffs = coeff_form(coeffs, form)
+    _ENV['actual'] = form != 'real_ndarray'
+    acc.seen('coefficients/' + form)
     results = {
         'polyroots01': outcome(lambda: polyroots01(coeffs)),
         'polyroots_real_01open': outcome(lambda: polyroots(coeffs, realroots=True, condition=lambda r: 0 < r < 1)),
@@ -380,7 +404,7 @@ def expected_classes(tier):
         out.append('exact/deg%d/bezier_point/certified|exact/deg%d/bezier_point/grid_only' % (n, n))
         out.append('exact/deg%d/split_bezier/certified|exact/deg%d/split_bezier/grid_only' % (n, n))
         out.append('exact/deg%d/bezier2polynomial/certified|exact/deg%d/bezier2polynomial/grid_only' % (n, n))
-    out += ['native/%s' % f for f in NATIVE_FORMS]
+    out += ['native/%s' % f for f in NATIVE_FORMS] + ['coefficients/%s' % f for f in COEFF_FORMS]
     for n in range(1, 7):
         out.append('roots/deg%d/all_permutations|roots/deg%d/no_environment_call' % (n, n))
     return out
@@ -455,6 +479,15 @@ def run_native(n, acc, only=None):
                          ('bezier2polynomial', lambda: [complex(q) for q in bezier2polynomial(pts)], want_poly)]
                 if t == 0.5:
                     tests.append(('halve_bezier', lambda: [[complex(q) for q in side] for side in halve_bezier(pts)], want_split))
+                if t == ts[0] and form in ('float', 'complex', 'np_float_array', 'int'):
+                    # the parameter as an ndarray of many values at once (and the array must be left untouched)
+                    tarr = np.array(ts)
+                    keep = tarr.copy()
+                    want_arr = [complex(bernstein_eval(ex, F(x))) for x in ts]
+                    tests.append(('bezier_point_ndarray_t', lambda: [complex(q) for q in np.asarray(bezier_point(pts, tarr)).ravel()] +
+                                  [complex(q) for q in (tarr - keep)], want_arr + [0j] * len(ts)))
+                    want_b = [[complex(math.comb(n, k) * F(x) ** k * (1 - F(x)) ** (n - k)) for x in ts] for k in range(n + 1)]
+                    tests.append(('bernstein_ndarray_t', lambda: [[complex(q) for q in np.asarray(b).ravel()] for b in bernstein(n, tarr)], want_b))
                 for name, fn, want in tests:
                     if name == 'bezier2polynomial' and t != ts[0]:
                         continue
